@@ -11,7 +11,7 @@ Progress property (no zero-width cycle), the verdict is the property itself: ret
 import random
 import re
 
-from . import core, inputs, lexgen, semerr
+from . import core, inputs, lexgen, semerr, progs as progmod
 
 ALPHA = [b"<?php ", b"<?", b"?>", b"$", b"a", b"A", b"1", b"0", b" ", b"\n", b"\r", b"\t", b'"', b"'", b"`", b"{", b"}", b"(", b")",
          b"[", b"]", b";", b",", b".", b"-", b">", b"<", b"=", b"+", b"*", b"/", b"#", b"\\", b"&", b"|", b"?", b":", b"!", b"@", b"%", b"^", b"~",
@@ -128,6 +128,10 @@ def run(tier):
         add(b, "signature")
         forced.setdefault(b, []).append((p["ver"], False))
         forced[b].append((p["ver"], True))
+    # (d'') programs nested many blocks deep
+    for fam_ in ("7", "5"):
+        for src in progmod.deep_sources(check, fam_, core.seed(), 60 if tier == "quick" else 600)[:40]:
+            add(src.encode("latin-1"), "deep-nesting")
     # (e) byte sweep
     nsweep = 0
     for b, origin in sweep_inputs(tier):
